@@ -51,6 +51,9 @@ func c01(tier string) []*explore.Scenario {
 	}
 	// the shipped topologies: through a proxy and a demultiplexer (one Serve per client)
 	out = append(out, c16RPCFam("C01", "2unary", false, 1), c16RPCFam("C01", "2unary", true, 1), c16RPCFam("C01", "payloads", true, 0))
+	// up to 64 callers whose handlers all wait: every queue of the path is full at once
+	out = append(out, c01Gated("direct", 64, 64, 0), c01Gated("direct", 32, 0, 0), c01Gated("demux", 64, 64, 0), c01Gated("demux", 40, 0, 0),
+		c01Gated("proxy", 40, 64, 0), c01Gated("proxy", 24, 0, 0), c01Gated("demux", 12, 0, 1), c01Gated("proxy", 64, 0, 0))
 	return out
 }
 
@@ -343,6 +346,55 @@ func c01DirectSize(k int, po env.PipeOpts, bound int, duringStartup bool, size i
 				checkUnary(r, env.Pad("x"+r.Tag), "C01/direct")
 			}
 			finishDirect(d, w, true)
+		},
+	}
+}
+
+// c01Gated: k callers at once while every handler waits for a gate that opens only when the
+// whole system is quiescent: every queue on the path (worker pool, read loop, demultiplexer,
+// transport, proxy) holds as much as it can. Each caller must still get its own reply.
+// topo: "direct", "demux" (client - Demux - Serve) or "proxy" (client - proxy - Demux - Serve).
+func c01Gated(topo string, k, pcap, bound int) *explore.Scenario {
+	fam := "C01/gated-" + topo
+	if topo == "proxy" && k > 27+pcap {
+		// more requests outstanding than the path can hold (8 workers + read loop + demux +
+		// transport + writer + the proxy's 16-slot buffer): the proxy's non-blocking hand-over
+		// drops the rest (recorded finding; own family so that it masks nothing else)
+		fam = "C01/proxy-over-buffer"
+	}
+	return &explore.Scenario{
+		Name: fmt.Sprintf("C01/gated-%s/k=%d/cap=%d", topo, k, pcap), Family: fam, Prop: "C01", Bound: bound,
+		Run: func() {
+			w := env.NewWorld()
+			env.MsgSize = 0
+			var cc *goat.ClientConn
+			switch topo {
+			case "proxy":
+				t := env.NewProxyTopo(w, env.ProxyOpts{Clients: 1, PreAttach: true, Cap: pcap})
+				cc = t.CCs[0]
+			default:
+				d := env.NewDirect(w, env.DirectOpts{Pipe: env.PipeOpts{Cap: pcap}, Demux: topo == "demux"})
+				cc = d.CC
+			}
+			vsched.Settle()
+			vsched.Explore(true)
+			gate := make(chan struct{})
+			var rs []*env.Rec
+			for i := 0; i < k; i++ {
+				r := w.Rec(fmt.Sprintf("c%d", i), "Unary")
+				rs = append(rs, r)
+				w.Unaries[r.Tag] = func(r *env.Rec, ctx context.Context, in string) (string, error) {
+					<-gate
+					return "R:" + in, nil
+				}
+				vsched.GoNamed("caller-"+r.Tag, func() { w.CallUnary(cc, context.Background(), r, "x"+r.Tag) })
+			}
+			vsched.Quiesce()
+			close(gate)
+			vsched.Quiesce()
+			for _, r := range rs {
+				checkUnary(r, "x"+r.Tag, fam)
+			}
 		},
 	}
 }
